@@ -125,10 +125,10 @@ class FST(WFSA):
         p.add_I(0, R.one)
         p.add_F(1, R.one)
         for i, (xs, ys) in enumerate(pairs):
-            p.add_arc(0, EPSILON, (i, 0), R.one)
+            p.add_arc(0, (EPSILON, EPSILON), (i, 0), R.one)
             for j, (x, y) in enumerate(zip_longest(xs, ys, fillvalue=EPSILON)):
                 p.add_arc((i, j), (x, y), (i, j + 1), R.one)
-            p.add_arc((i, max(len(xs), len(ys))), EPSILON, 1, R.one)
+            p.add_arc((i, max(len(xs), len(ys))), (EPSILON, EPSILON), 1, R.one)
         return p
 
     def project(self, axis):
